@@ -32,6 +32,7 @@ import Jamm.Proofs.HashLemmas
 import Jamm.Proofs.PrevSnapLemmas
 import Jamm.Proofs.EncodeMetaLemmas
 import Jamm.Proofs.MetaBytes
+import Jamm.Proofs.CommitFileAtomic
 set_option linter.unusedSectionVars false
 
 namespace Jamm.Props.C12
@@ -216,5 +217,52 @@ theorem header_write_is_local (pagesize slot : Nat) (m : MetaRec) (s : Src) (i :
     (h : i < slot * pagesize ∨ slot * pagesize + pagesize ≤ i) :
     (writeMetaPage Gen.layout pagesize slot m s).get i = s.get i :=
   (writeMetaPage_frame Gen.layout pagesize slot m s i layout_fit_for_header_roundtrip hrec h).1
+
+/-! ### the fallback shows the intact header's state IN FULL (file bytes → whole database) -/
+
+/-- if the state of the intact header is stored under `slot` and the other header page no longer verifies —
+whatever happened to it — `open` shows that state in full: every bucket at every nesting depth with its keys,
+values and counters, and the persisted free list.  (`Holds`, `KeepsState`, `openFile`: `Proofs/CommitFileLemmas`,
+`Model/CommitFile`; that a completed commit leaves BOTH states stored, the previous one under the old slot, is
+`Jamm.Props.C02.header_write_switches_states`.) -/
+theorem damaged_header_shows_the_intact_headers_state (pagesize : Nat)
+    (hrec : Gen.layout.pgPtr + Gen.layout.metaSize ≤ pagesize) (ov : Nat → Nat) (s d : Src) (slot : Nat)
+    (hslot : slot = 0 ∨ slot = 1) (st : Opened)
+    (h : Holds Gen.layout Gen.hashOrder pagesize ov s slot st)
+    (k : KeepsState pagesize ov s d slot st)
+    (hbad : slotValid Gen.layout Gen.hashOrder d pagesize (1 - slot) = none)
+    (fuel : Nat) (hf : st.view.weight ≤ fuel) :
+    openFile Gen.layout Gen.hashOrder pagesize fuel d = some st := by
+  have hE : Layout.WFEnc Gen.layout = true := by decide
+  have hhdr : Gen.layout.pageSize ≤ pagesize := Nat.le_trans (by decide) hrec
+  refine crash_shows_old Gen.layout Gen.hashOrder pagesize (Layout.WF.of _ hE)
+    (Layout.WFM.of _ layout_fit_for_header_roundtrip) hrec hhdr ov s d slot hslot st h k ?_ fuel hf
+  rw [hbad]; trivial
+
+/-- ONE changed byte, at any checked offset of one header page that verified: `open` shows, in full, the state of
+the other header — no collision assumption, any page size, any database -/
+theorem one_damaged_header_byte_shows_the_other_headers_state (pagesize : Nat)
+    (hrec : Gen.layout.pgPtr + Gen.layout.metaSize ≤ pagesize) (ov : Nat → Nat) (s d : Src) (slot : Nat)
+    (hslot : slot = 0 ∨ slot = 1) (st : Opened) (m : MetaRec) (off : Nat)
+    (h : Holds Gen.layout Gen.hashOrder pagesize ov s slot st) (habove : ∀ r ∈ st.runs ov, 2 ≤ r.1)
+    (hv : slotValid Gen.layout Gen.hashOrder s pagesize (1 - slot) = some m)
+    (hsz : d.size = s.size)
+    (hsame : ∀ i, i ≠ (1 - slot) * pagesize + off → d.get i = s.get i)
+    (hdiff : d.get ((1 - slot) * pagesize + off) ≠ s.get ((1 - slot) * pagesize + off))
+    (hin : off ∈ checkedOffsets Gen.layout Gen.hashOrder) (hoff : off < pagesize)
+    (fuel : Nat) (hf : st.view.weight ≤ fuel) :
+    openFile Gen.layout Gen.hashOrder pagesize fuel d = some st := by
+  have hbad := one_damaged_file_byte_is_detected s d pagesize (1 - slot) m off hv hsz hsame hdiff hin
+  refine damaged_header_shows_the_intact_headers_state pagesize hrec ov s d slot hslot st h ⟨hsz, ?_, ?_⟩ hbad fuel hf
+  · intro i h1 h2
+    apply hsame
+    rcases hslot with rfl | rfl
+    · simp only [Nat.zero_mul, Nat.zero_add, Nat.sub_zero, Nat.one_mul] at h1 h2 ⊢; omega
+    · simp only [Nat.one_mul, Nat.sub_self, Nat.zero_mul, Nat.zero_add] at h1 h2 ⊢; omega
+  · intro r hr i h1 _
+    apply hsame
+    have h2 : 2 * pagesize ≤ r.1 * pagesize := Nat.mul_le_mul_right _ (habove r hr)
+    have h3 : (1 - slot) * pagesize ≤ 1 * pagesize := Nat.mul_le_mul_right _ (by omega)
+    omega
 
 end Jamm.Props.C12
